@@ -62,6 +62,18 @@ inductive Ev where
   | topNoObj (o : Nat)
   | flag (o : Nat)                               -- the timer fired while o was running
   | hbs (self : Nat) (l : List Nat)              -- heart_beats()
+  | ctx (o : Nat) (lv : Bool) (tp : Option Nat) (full : Bool)
+                                                 -- heart_beat() of o entered: living(o), this_player(), eval cost untouched
+  | caught (o : Nat)                             -- o raised an error inside catch(): nothing is switched off
+  | reload (self target : Nat) (n q : Int)       -- reload_object(target); its create() did set_heart_beat(n)
+  | reloadNone (self target : Nat)               -- ... refused (gone, unknown or a blueprint)
+  | living (o : Nat)                             -- o called enable_commands()
+  | burn (o : Nat)                               -- o used up evaluation cost
+  | tickOff                                      -- a timer tick while timer_flags has no TIMER_FLAG_HEARTBEAT: no round
+  | tflags (n : Int)                             -- timer_flags set to n
+  | rp (o : Nat)                                 -- o called replace_program() (takes effect at the top of the backend loop)
+  | rpNone (o : Nat)                             -- ... not possible (a blueprint, or the program was replaced already)
+  | rpDone (o : Nat)                             -- the backend loop swapped o's program for one without heart_beat()
   | junk (s : String)                            -- crash / sanitizer / unparsable line
   deriving Repr, DecidableEq
 
@@ -163,6 +175,9 @@ def opAllowed (j : JState) : Bool := j.expect == .idle || j.expect == .inBeat
 
 def showOid (o : Nat) : String := s!"o{o}"
 
+/-- this_player() inside heart_beat() of o: o itself when it is living (enable_commands), otherwise 0 -/
+def ctxGiver (o : Nat) (lv : Bool) : Option Nat := if lv then some o else none
+
 /-- one event -/
 def judge1 (j : JState) (e : Ev) : JState :=
   match e with
@@ -252,6 +267,35 @@ def judge1 (j : JState) (e : Ev) : JState :=
   | .hbs _ l =>
     if l == (j.all.map (·.ob)).reverse then j
     else j.flagV s!"heart_beats-wrong got={l.map showOid} want={(j.all.map (·.ob)).reverse.map showOid}"
+  | .ctx o lv tp full =>
+    -- faults stay local: every heart_beat starts from a clean context, whatever ran before it
+    if j.expect != .inBeat || j.cur != some o then j.flagV s!"context-outside-heart-beat {showOid o}"
+    else if tp != ctxGiver o lv then
+      j.flagV s!"command-giver-wrong {showOid o} this_player={match tp with | some p => showOid p | none => "0"} living={lv}"
+    else if !full then j.flagV s!"eval-cost-not-reset {showOid o}"
+    else j
+  | .caught _ => j
+  | .reload _ t n q =>
+    if !opAllowed j then j.flagV s!"operation-outside-beat reload {showOid t}"
+    else if !j.alive t || t < 2 then j.flagV s!"reload-of-missing-object {showOid t}"
+    else
+      -- reload_object switches the heart beat off, then create() runs again
+      let j' := jSet (jDisable j t) t n
+      if q == jQuery j' t then j'
+      else j'.flagV s!"interval-wrong {showOid t} reload set_heart_beat({n}) then query_heart_beat={q} want={jQuery j' t}"
+  | .reloadNone _ t =>
+    if j.alive t && !(t < 2) then j.flagV s!"reload-refused {showOid t}" else j
+  | .living _ => j
+  | .burn _ => j
+  | .tickOff =>
+    if j.expect != .idle then j.flagV "tick-inside-round" else { j with expect := .endOfRound, trunc := false }
+  | .tflags _ => j
+  | .rp _ => j
+  | .rpNone _ => j
+  | .rpDone o =>
+    -- programs are swapped between rounds only; from now on the object has no heart_beat function: it stays on the
+    -- list, is counted down, and is never called
+    if j.expect != .idle then j.flagV s!"program-replaced-inside-round {showOid o}" else { j with nofn := o :: j.nofn }
   | .junk s => j.flagV s
 
 /-- violations found on a trace, oldest first; `[]` = the property held on this trace -/
